@@ -53,10 +53,8 @@ def judge_chunks(ctx, name, events, size=60000):
 def gen(ctx):
     cfgs = ["Gen_GuestMem.quick.cfg"] if ctx.tier == "quick" else ["Gen_GuestMem.quick.cfg", "Gen_GuestMem.thorough.cfg"]
     for cfg in cfgs:
-        r = tlc_must_pass(TLA, os.path.join(SPEC, cfg), "gen_guest_" + ctx.pid, workers=8, timeout=3000)
+        r, inits, edges = gen_run(TLA, os.path.join(SPEC, cfg), "gen_guest_" + ctx.pid, workers=8, timeout=3000)
         ctx.add_mc(r, cfg)
-        inits = parse_tagged(r.out_path, "INIT")
-        edges = parse_tagged(r.out_path, "EDGE")
         hists, covered = edges_to_histories(inits, edges, chunk=400)
         prog = [{"op": a["op"], "a": a["a"]} for h in hists for a in h]
         # a third of the mmap layouts are replayed on file-backed regions as well
@@ -118,6 +116,9 @@ def rnd_history(rnd, nops, zst, xen=False):
         p = 4096
     lay = rnd_layout(rnd, be)
     prog = [{"op": "init", "a": {"be": be, "p": p, "lay": lay, "via": rnd.choice(["direct", "insert", "remove", "remove"])}}]
+    if be == "custom":
+        # a foreign backend stores (and iterates) its regions in any order; the provided methods must not care
+        prog[0]["a"]["perm"] = rnd.choice(["id", "rev", "rot"])
 
     def addr():
         if rnd.random() < 0.85:
@@ -320,10 +321,9 @@ def run_c14(ctx):
     ctx.cov["exhaustive"] = True
     cfgs = ["Gen_GuestMem.c14q.cfg"] if ctx.tier == "quick" else ["Gen_GuestMem.c14q.cfg", "Gen_GuestMem.c14t.cfg"]
     for cfg in cfgs:
-        r = tlc_must_pass(TLA, os.path.join(SPEC, cfg), "gen_guest_c14", workers=8, timeout=3000)
+        r, inits, edges = gen_run(TLA, os.path.join(SPEC, cfg), "gen_guest_c14", workers=8, timeout=3000)
         ctx.add_mc(r, cfg)
-        inits = parse_tagged(r.out_path, "INIT")
-        edges = [e for e in parse_tagged(r.out_path, "EDGE") if e[0]["act"]["op"].startswith(("s_", "rs_"))]
+        edges = [e for e in edges if e[0]["act"]["op"].startswith(("s_", "rs_"))]
         hists, covered = edges_to_histories(inits, edges, chunk=400)
         prog = [{"op": a["op"], "a": a["a"]} for h in hists for a in h]
         events = run_harness("guest", prog, os.path.join(WORK, "gen_guest_c14.ev.ndjson"), ctx=ctx)
